@@ -34,18 +34,18 @@ func goid() uint64 {
 }
 
 type recorder struct {
-	mu       sync.Mutex
-	lines    []string          // driver lines
-	expect   []string          // what the implementation observed for that line ("" = only acceptance)
-	epOfPtr  map[uintptr]int   // registry identity -> model endpoint id
-	epOfGo   map[uint64]int    // goroutine -> lifecycle it runs
-	ptrOfEp  map[int]uintptr
-	nextSess int
-	nextEp   int
-	pendKick string
-	parks    map[string]chan struct{}
-	jitter   *hx.Rand
-	unmapTry map[int]int // ep -> index of its unmap line
+	mu         sync.Mutex
+	lines      []string        // driver lines
+	expect     []string        // what the implementation observed for that line ("" = only acceptance)
+	epOfPtr    map[uintptr]int // registry identity -> model endpoint id
+	epOfGo     map[uint64]int  // goroutine -> lifecycle it runs
+	ptrOfEp    map[int]uintptr
+	nextSess   int
+	nextEp     int
+	pendKick   string
+	parks      map[string]chan struct{}
+	jitter     *hx.Rand
+	unmapTry   map[int]int // ep -> index of its unmap line
 	conn, disc map[int]int
 }
 
